@@ -38,7 +38,7 @@ def build(asm, tier):
     asm.raw(stubs + al.MERGE_STUBS + al.PMERGE_STUBS + al.PMUL_STUBS, 'assumed callee contracts (BTreeMap-merge leaves)')
     for n in names:
         asm.stubs.append(dict(unit=n, proved_in=''))
-    for u in al.zero_linear() + al.zero_quadratic_polynomial() + al.from_units() + [al.linear_add_f64(), al.linear_mul_f64(), al.quadratic_add_f64(), al.quadratic_mul_f64(), al.polynomial_mul_f64(), al.function_add(), al.function_mul(), al.linear_add_linear(), al.linear_new(), al.quadratic_add_linear(), al.quadratic_quad_iter(), al.quadratic_from_iter(), al.quadratic_add_quadratic(), al.linear_mul_linear(), al.polynomial_add_polynomial()] + al.sorted_ids_units() + [al.polynomial_terms(), al.polynomial_from_iter(), al.polynomial_mul_polynomial(), iters.linear_terms(), iters.quadratic_terms(), iters.sorted_ids_empty(), iters.function_terms()] + iters.sorted_ids_from_units() + iters.polynomial_from_units() + al.macro_units() + al.typed_macro_units() + [io_single_term()] + al.var_units():
+    for u in al.zero_linear() + al.zero_quadratic_polynomial() + al.from_units() + [al.linear_add_f64(), al.linear_mul_f64(), al.quadratic_add_f64(), al.quadratic_mul_f64(), al.polynomial_mul_f64(), al.function_add(), al.function_mul(), al.linear_add_linear(), al.linear_new(), al.quadratic_add_linear(), al.quadratic_quad_iter(), al.quadratic_from_iter(), al.quadratic_add_quadratic(), al.linear_mul_linear(), al.polynomial_add_polynomial()] + al.sorted_ids_units() + [al.polynomial_terms(), al.polynomial_from_iter(), al.polynomial_mul_polynomial(), iters.linear_terms(), iters.quadratic_terms(), iters.sorted_ids_empty(), iters.function_terms()] + iters.sorted_ids_from_units() + iters.polynomial_from_units() + [iters.quadratic_mul_quadratic()] + al.macro_units() + al.typed_macro_units() + [io_single_term()] + al.var_units():
         asm.unit(u)
     asm.raw('} // mod units\n')
     asm.guard(common.guard_fn('c02', '', uses='use super::lib::*;'), 'vacuity: prelude')
